@@ -128,10 +128,11 @@ def lock_abs_check(prop, tier, seed, switches, plan, fifo=False, crash_is_stuck=
             prog_text[p.split()[1]] = (cls, p)
     with ThreadPoolExecutor(max_workers=6) as pool:
         for ex in pool.map(run_item, list(enumerate(plan))):
+            # (a run that is still going after the step limit is a livelock: judged like a run that got stuck)
             for e in ex:
-                if e.status in ('steplimit', 'diverged', 'logfull'):
+                if e.status in ('diverged', 'logfull'):
                     infra[e.status] += 1
-            all_execs.extend(e for e in ex if e.status not in ('steplimit', 'diverged', 'logfull'))
+            all_execs.extend(e for e in ex if e.status not in ('diverged', 'logfull'))
     t_explore = time.time() - t0
     groups = vlib.dedup_histories(all_execs, lambda ex: [{'e': 'prog', 'p': prog_text[ex.prog][0]}] +
                                   vlib.api_history(ex, fifo=fifo, crash_is_stuck=crash_is_stuck))
@@ -231,9 +232,10 @@ def base_plan(tier, seed, classes=('pess', 'opt', 'mcs'), opt_scripts=True, thre
                 plan.append((cls, pr, par))
         plan.append((cls, programs.crowd(cls), dict(pb=1 if q else 2, max_exec=400 if q else 6000)))
         plan.append((cls, programs.twolock_follow(cls), dict(pb=1 if q else 2, max_exec=200 if q else 4000)))
+        plan.append((cls, programs.quiesce(cls), dict(pb=1 if q else 2, max_exec=100 if q else 3000)))
         # seeded random schedules (any number of preemptions) of the 3-thread products complement the bounded search
         if three:
-            plan.append((cls, programs.cross3(cls, CONV + ('X',), MODES3, MODES3, tag='r3'), dict(mode='random', max_exec=12 if q else 300)))
+            plan.append((cls, programs.cross3(cls, CONV + ('X',), MODES3, MODES3, tag='r3'), dict(mode='random', max_exec=40 if q else 400)))
         rp = programs.random_programs(cls, 8 if q else 40, seed)
         plan.append((cls, rp, dict(pb=1 if q else 2, max_exec=150 if q else 4000)))
         plan.append((cls, rp, dict(mode='random', max_exec=40 if q else 400)))
@@ -248,6 +250,8 @@ def check_c01(prop, tier, seed):
     q = tier == 'quick'
     plan = base_plan(tier, seed, extra=[(programs.twolocks, dict(pb=2)), (programs.twosec, dict(pb=2, max_exec=2000 if q else 30000))])
     plan.append(('opt', programs.opt_basic() + programs.opt_prepare() + programs.opt_mix3(), dict(pb=2, max_exec=2000 if q else 30000)))
+    plan.append(('opt', programs.cross3('opt', ('PRV', 'GTS', 'GTX'), ('X', 'XX', 'DNG', 'XSV'), ('S', 'SIX', 'X'), tag='o3r'),
+                 dict(mode='random', max_exec=150 if q else 1500)))
     res = lock_abs_check(prop, tier, seed, ['CkCompat'], plan)
     res['assumptions'] = LOCK_ASSUME
     return res
@@ -289,7 +293,8 @@ def check_c10(prop, tier, seed):
         plan.append((cls, programs.cross2(cls, conv, lib, tag='cv2'), dict(pb=2 if q else 3, max_exec=4000 if q else 60000)))
         plan.append((cls, programs.cross3(cls, conv, MODES3, MODES3, tag='cv3'), dict(pb=1 if q else 2, max_exec=800 if q else 20000)))
         plan.append((cls, programs.crowd(cls), dict(pb=1 if q else 2, max_exec=400 if q else 6000)))
-        plan.append((cls, programs.cross3(cls, conv, MODES3, MODES3, tag='cr3'), dict(mode='random', max_exec=12 if q else 300)))
+        plan.append((cls, programs.quiesce(cls), dict(pb=1 if q else 2, max_exec=100 if q else 3000)))
+        plan.append((cls, programs.cross3(cls, conv, MODES3, MODES3, tag='cr3'), dict(mode='random', max_exec=40 if q else 400)))
         if not q:
             plan.append((cls, programs.cross3(cls, conv, conv, MODES3, tag='cv3b'), dict(pb=2, max_exec=8000)))
     res = lock_abs_check(prop, tier, seed, ['CkConvAtomic', 'CkCompat'], plan)
@@ -329,6 +334,9 @@ def check_c13(prop, tier, seed):
     plan = [('opt', programs.cross2('opt', ('PRV',), ALLOPT, tag='pr2'), dict(pb=2 if q else 3, max_exec=6000 if q else 60000)),
             ('opt', programs.cross3('opt', ('PRV',), ('X', 'DNG', 'XSV', 'UPG', 'DNUP', 'XX'), ('S', 'SIX', 'X', 'PRV')),
              dict(pb=1 if q else 2, max_exec=800 if q else 20000)),
+            ('opt', programs.cross3('opt', ('PRV',), ('X', 'XX', 'DNG'), ('S', 'SIX', 'PRV'), tag='pr3b'), dict(pb=2, max_exec=2500 if q else 30000)),
+            ('opt', programs.cross3('opt', ('PRV',), ('X', 'XX', 'DNG', 'UPG'), ('S', 'SIX', 'X', 'PRV'), tag='pr3r'),
+             dict(mode='random', max_exec=150 if q else 1500)),
             ('opt', programs.opt_prepare() + programs.opt_mix3(), dict(pb=2 if q else 3, max_exec=3000 if q else 40000))]
     res = lock_abs_check(prop, tier, seed, ['CkPrepare', 'CkOptimistic', 'CkGuards', 'CkProgress', 'CkCompat'], plan)
     res['assumptions'] = LOCK_ASSUME + ['the harness builds the library with CPP_UTILITY_SPINLOCK_RETRY_NUM=1, so PrepareRead makes '
@@ -340,10 +348,14 @@ def check_c13(prop, tier, seed):
 def check_c11(prop, tier, seed):
     q = tier == 'quick'
     plan = [('mcs', programs.cross2('mcs'), dict(pb=2 if q else 3, max_exec=3000 if q else 60000)),
-            ('mcs', programs.cross3('mcs', MODES3, MODES3, MODES3), dict(pb=2, max_exec=1500 if q else 30000)),
+            ('mcs', programs.cross3('mcs', MODES3, MODES3, MODES3), dict(pb=2, max_exec=3000 if q else 30000)),
+            ('mcs', programs.cross3('mcs', MODES3, MODES3, MODES3, tag='r3m'), dict(mode='random', max_exec=400 if q else 4000)),
             ('mcs', programs.cross3('mcs', CONV, MODES3, MODES3), dict(pb=1 if q else 2, max_exec=600 if q else 20000)),
+            ('mcs', programs.cross3('mcs', CONV, MODES3, MODES3, tag='r3c'), dict(mode='random', max_exec=40 if q else 400)),
             ('mcs', programs.twosec('mcs'), dict(pb=2, max_exec=2500 if q else 30000)),
             ('mcs', programs.four('mcs', full=not q), dict(pb=1 if q else 2, max_exec=500 if q else 8000)),
+            ('mcs', programs.four('mcs', full=not q), dict(mode='random', max_exec=60 if q else 600)),
+            ('mcs', programs.quiesce('mcs'), dict(pb=1 if q else 2, max_exec=100 if q else 3000)),
             ('mcs', programs.five('mcs'), dict(pb=1, max_exec=400 if q else 5000))]
     res = lock_abs_check(prop, tier, seed, ['CkFifo', 'CkCompat'], plan, fifo=True)
     res['assumptions'] = LOCK_ASSUME + ['arrival = the first modification of the lock object inside a Lock* call (derived from the '
@@ -511,7 +523,10 @@ def check_c12(prop, tier, seed):
             ('mcs', programs.twosec('mcs') + programs.twolocks('mcs') + programs.handover('mcs') + programs.guards('mcs'),
              dict(pb=2, max_exec=2500 if q else 30000)),
             ('mcs', programs.twolock_follow('mcs'), dict(pb=2, max_exec=300 if q else 4000)),
-            ('mcs', programs.crowd('mcs'), dict(pb=1 if q else 2, max_exec=400 if q else 6000))]
+            ('mcs', programs.crowd('mcs'), dict(pb=1 if q else 2, max_exec=400 if q else 6000)),
+            ('mcs', programs.quiesce('mcs'), dict(pb=1 if q else 2, max_exec=100 if q else 3000)),
+            ('mcs', programs.four('mcs', full=not q), dict(pb=1 if q else 2, max_exec=300 if q else 8000)),
+            ('mcs', programs.cross3('mcs', MODES3, MODES3, MODES3, tag='r3m'), dict(mode='random', max_exec=200 if q else 2000))]
     if not q:
         plan.append(('mcs', programs.random_programs('mcs', 40, seed), dict(pb=2, max_exec=4000)))
 
@@ -539,7 +554,7 @@ def check_c12(prop, tier, seed):
 # IDManager / EpochManager: programs run by the thread harness (one build per ID capacity)
 # ------------------------------------------------------------------------------------------------
 def thread_check(prop, tier, seed, plan, proj, spec_name, cfg_path, describe, statuses=('ok', 'stuck'), max_rounds=3,
-                 crash_statuses=('crash', 'timeout', 'aborted'), extra=()):
+                 crash_statuses=('crash', 'timeout', 'aborted', 'steplimit'), extra=()):
     """plan: list of (capacity N, [program lines], dict(pb=, max_exec=, mode=))"""
     workdir = wdir(prop)
     os.makedirs(workdir, exist_ok=True)
@@ -626,7 +641,7 @@ def id_history(ex, ptext=None):
             for f in ID_FIELDS:
                 o[f] = e.get(f, -1)
             out.append(o)
-    if ex.status in ('crash', 'timeout', 'aborted'):
+    if ex.status in ('crash', 'timeout', 'aborted', 'steplimit'):
         o = {'e': 'stuck'}
         for f in ID_FIELDS:
             o[f] = -1
